@@ -46,7 +46,8 @@ PROPS = {
     },
     "C03": {
         "lean_modules": ["C03"],
-        "rule": "shapes of rank 0-3 (quick) / 0-4 (thorough) with dims {1,2,3} plus equal-dim and rank-5 shapes x all axis permutations x element widths {1,2,4,8,16 bytes, string} x sources {row-major, column-major raw, column-major converting, sliced view} x random continuations of T/UT/Transpose; dumps of tensor and parent after every step",
+        "builds": [["default", "verif"], ["inplace", "verif inplacetranspose"]],
+        "rule": "shapes of rank 0-3 (quick) / 0-4 (thorough) with dims {1,2,3} plus equal-dim and rank-5 shapes x all axis permutations x element widths {1,2,4,8,16 bytes, string} x sources {row-major, column-major raw, column-major converting, sliced view} x random continuations of T/UT/Transpose/SafeT/tensor.T/tensor.Transpose/RollAxis, RollAxis over every (axis, start) pair; dumps of tensor and parent after every step; every program also runs on the harness built with the tag inplacetranspose (the in-place data movement), which must equal the same model",
     },
     "C05": {
         "lean_modules": ["C05", "C05mult"],
